@@ -47,6 +47,12 @@ def model_from_case(case):
         LAST["desc"], LAST["realised"] = case["desc"], case.get("features", {})
         return case["desc"], case.get("features", {})
     rng = case_rng(case)
+    if case.get("template"):
+        from vlib import templates
+
+        desc, realised = templates.TEMPLATES[case["template"]](rng)
+        LAST["desc"], LAST["realised"] = desc, realised
+        return desc, realised
     cfg = gen.THOROUGH_CFG if case.get("cfg") == "thorough" else gen.DEFAULT_CFG
     cfg = {**cfg, **case.get("cfg_over", {})}
     feats = gen.draw_features(rng, case["index"])
